@@ -93,6 +93,19 @@ Proof.
 Qed.
 Print Assumptions c02_sim_nothing_after_decision.
 
+(* script based simulator (_run_job_and_collect_results slices std.out from
+   num_already_before = _last_metric_seen_index): after ANY events — raw operations and polls that do
+   not cover a reporting trial included — the job of a resumed trial gets exactly the reports of
+   std.out ([all], every run of the trial) beyond the number of results that arrived and were handed
+   out or dropped so far; none of those is replayed, none beyond is lost. *)
+Theorem c02_sim_resume_slice :
+  forall evs st i all t,
+  srun init evs = (st, None) -> nth_error (trials st) i = Some t -> status_of t = Paused ->
+  exists st' t', sstep st (ResumeScript i all) = (st', None) /\ nth_error (trials st') i = Some t' /\
+                 cur t' = skipn (length (log t) - length (nrf t)) all /\ todo t' = cur t' /\ dcur t' = [].
+Proof. exact sim_resume_slice. Qed.
+Print Assumptions c02_sim_resume_slice.
+
 (* tabular simulator: a resumed job replays exactly the rows above the level it was paused at
    (checkpointing), in table order; without checkpointing, or if the level is unknown, all rows *)
 Theorem c02_after_resume_first_tabular :
